@@ -80,7 +80,12 @@ class Unordered(object):
                 return (id(b[1]), e.id) in self.params
             if b[0] == "local":
                 defs = _defs_of(b[1], e.id)
-                return bool(defs) and all(d is not None and self.is_unordered(d, depth + 1) for d in defs)
+                if bool(defs) and all(d is not None and self.is_unordered(d, depth + 1) for d in defs):
+                    return True
+                # some binding is ordered: what matters is which bindings can still be in force at this use.  `lines = map(..)` followed by
+                # `if cond: lines = frozenset(lines) - seen` leaves a set in `lines` on one path; `xs = set(..)` followed by `xs = sorted(xs)` does not.
+                reach = _reaching_defs(b[1], e.id, e)
+                return reach is not None and any(d is not None and self.is_unordered(d, depth + 1) for d in reach)
             if b[0] == "value":
                 return self.is_unordered(b[2], depth + 1)
             return False
@@ -145,6 +150,62 @@ def _defs_of(scope_node, name):
         elif isinstance(n, ast.NamedExpr) and n.target.id == name:
             out.append(n.value)
     return out
+
+
+def _reaching_defs(scope_node, name, use):
+    """The value expressions of the plain assignments `name = <expr>` that can be in force at `use` (None entries for bindings we
+    cannot see through); None when the question is not decided here (the name is bound by a loop / with / tuple target, or a
+    loop encloses the use together with one of its bindings - then everything may reach, which the caller has handled already).
+    A binding is out of force when a later plain assignment, standing in a block that encloses the use, precedes the use."""
+    binds = []
+    for n in ast.walk(scope_node):
+        if isinstance(n, ast.Assign) and any(isinstance(t, ast.Name) and t.id == name for t in n.targets):
+            binds.append(n)
+        elif isinstance(n, ast.Assign) and any(isinstance(t, (ast.Tuple, ast.List)) and name in names_in(t) for t in n.targets):
+            return None
+        elif isinstance(n, ast.AugAssign) and isinstance(n.target, ast.Name) and n.target.id == name:
+            return None
+        elif isinstance(n, (ast.For, ast.comprehension)) and name in names_in(n.target):
+            return None
+        elif isinstance(n, ast.withitem) and n.optional_vars is not None and name in names_in(n.optional_vars):
+            return None
+        elif isinstance(n, ast.NamedExpr) and n.target.id == name:
+            return None
+    if not binds:
+        return None
+
+    def chain(x):
+        out, p = [], x
+        while p is not None and p is not scope_node:
+            out.append(p)
+            p = getattr(p, "_parent", None)
+        return out
+    use_chain = chain(use)
+    use_ids = {id(x) for x in use_chain}
+    if any(isinstance(x, (ast.For, ast.While, ast.AsyncFor)) and any(id(x) in {id(y) for y in chain(b)} for b in binds) for x in use_chain):
+        return None
+
+    def pos(x):
+        return (getattr(x, "lineno", 0), getattr(x, "col_offset", 0))
+    use_stmt = next((x for x in use_chain if isinstance(x, ast.stmt)), None)
+    if use_stmt is None:
+        return None
+    before = [b for b in binds if pos(b) < pos(use_stmt) or (b is use_stmt and False)]
+    # the binding that certainly ran last before the use: it stands in a block that encloses the use
+    dominating = []
+    for b in before:
+        par = getattr(b, "_parent", None)
+        if par is scope_node or id(par) in use_ids:
+            # same block as (an ancestor of) the use - but not in the other arm of the same `if` / `try`
+            for fld in ("body", "orelse", "finalbody", "handlers"):
+                blk = getattr(par, fld, None)
+                if isinstance(blk, list) and any(x is b for x in blk) and any(id(x) in use_ids for x in blk):
+                    dominating.append(b)
+    killer = max(dominating, key=pos) if dominating else None
+    reach = [b for b in before if killer is None or pos(b) >= pos(killer)]
+    if killer is None and not any(pos(b) < pos(use_stmt) for b in binds):
+        return None
+    return [b.value for b in reach]
 
 
 def _consumer_chain_insensitive(e):
